@@ -712,7 +712,9 @@ fn client(o: &Opts, out: &mut Out, run: &mut u64) {
             Ok(()) => {
                 let rc = cl.receipts().unwrap_or_default();
                 let tail: Vec<serde_json::Value> = rc.iter().rev().take(2).rev().map(receipt_json).collect();
-                out.ev(json!({"ev": "RunSummary", "run": *run, "loops": cnt, "nrc": rc.len(), "logs": rc.iter().filter(|r| matches!(r, fuel_tx::Receipt::Log { .. })).count(), "tail": tail}));
+                let root = cl.state_transition().map(|s| { use fuel_tx::field::ReceiptsRoot; hx(s.tx().receipts_root()) }).unwrap_or_default();
+                out.ev(json!({"ev": "RunSummary", "run": *run, "loops": cnt, "nrc": rc.len(), "logs": rc.iter().filter(|r| matches!(r, fuel_tx::Receipt::Log { .. })).count(), "tail": tail,
+                              "receipts_root": root, "rc_all": rc.iter().map(|r| json!(hx(r.to_bytes()))).collect::<Vec<_>>()}));
             }
             Err(m) => out.ev(json!({"ev": "HostPanic", "where": "receipt-limit", "msg": m})),
         }
